@@ -950,6 +950,12 @@ where
 
     // Only move the item if it's new or if it was positioned.
     if replaced.is_none() || after.is_some() || before.is_some() {
+        // If an existing rule is moved further down, taking it out of its current place shifts
+        // the rules below it, including the one it is placed relative to, up by one.
+        if from < to {
+            to -= 1;
+        }
+
         set.move_index(from, to);
     }
 
